@@ -5,8 +5,15 @@
   batch", executable, replayed by the driver on every observed batch sequence of the real
   `Batched` iterator.  The theorems below hold for EVERY sequence of allowed steps, i.e. for every
   random stream / seed, every item-size sequence and every configuration.
+
+  The limit clauses (`Good`, `itemsLimit`, `limOf`) speak about the value the code computes, the SATURATING
+  product `count.saturating_mul(max size)` (Model/Batch.lean `limOf`): this is what the code guarantees for every
+  configuration.  The `*_exact` corollaries give the same clauses for the mathematical product `limOfExact`, for
+  every batch limit below `usize::MAX` (Props/C06u.lean `limOf_le_iff` / `limOf_gt_iff`; sharp: with limit
+  `usize::MAX` the saturated value never exceeds the limit).
 -/
 import TuModel.Lemmas.BatchL
+import TuModel.Props.C06u
 namespace Tu.C06
 open Tu
 
@@ -48,7 +55,7 @@ theorem step_spec (cfg : BCfg) (st : BState) (b : List Item) (st' : BState)
           subst heq'
           exact ⟨h2, by rw [← h1]⟩
         · simp at h
-    · generalize hfb : fillBuf cfg.padded (cfg.lim * cfg.pf) st.rest st.buf st.buf.length (maxSize st.buf) = r at h
+    · generalize hfb : fillBuf cfg.padded (min (cfg.lim * cfg.pf) usizeMax) st.rest st.buf st.buf.length (maxSize st.buf) = r at h
       obtain ⟨buf, rest'⟩ := r
       have hfill := fillBuf_spec _ _ _ _ _ _ _ _ hfb
       simp only at h
@@ -195,6 +202,32 @@ theorem run_spec (cfg : BCfg) : ∀ (bs : List (List Item)) (st st' : BState),
           · exact h1
         · exact hall x hx
 
+/-- `batch_limit.max(1)` is below `usize::MAX` iff the configured limit is -/
+theorem lim_lt_usizeMax_iff (cfg : BCfg) : cfg.lim < usizeMax ↔ cfg.limit < usizeMax := by
+  unfold BCfg.lim usizeMax; omega
+
+/-- `step_spec` with the mathematical padded size: for every batch limit below `usize::MAX` a batch with more than
+one item has `count * max size ≤ limit` exactly (not only after saturation) -/
+theorem step_spec_exact (cfg : BCfg) (st : BState) (b : List Item) (st' : BState)
+    (hl : max 1 cfg.limit < usizeMax)
+    (hnd : (st.buf ++ st.rest).Nodup) (h : stepAllowed cfg st b = some st') :
+    b ≠ [] ∧ (b.length ≤ 1 ∨ limOfExact cfg.padded b.length (maxSize b) ≤ cfg.lim) ∧
+    (b ++ st'.buf ++ st'.rest).Perm (st.buf ++ st.rest) := by
+  obtain ⟨hne, hgood, hperm⟩ := step_spec cfg st b st' hnd h
+  refine ⟨hne, ?_, hperm⟩
+  rcases hgood with h1 | h1
+  · exact Or.inl h1
+  · exact Or.inr ((C06u.itemsLimit_le_iff cfg.padded b cfg.lim hl).mp h1)
+
+/-- `run_spec` with the mathematical padded size, for every batch limit below `usize::MAX` -/
+theorem run_spec_exact (cfg : BCfg) (bs : List (List Item)) (st st' : BState) (hl : max 1 cfg.limit < usizeMax)
+    (hnd : (st.buf ++ st.rest).Nodup) (h : runBatches cfg st bs = some st') :
+    (bs.flatten ++ st'.buf ++ st'.rest).Perm (st.buf ++ st.rest) ∧
+    (∀ b ∈ bs, b ≠ [] ∧ (1 < b.length → limOfExact cfg.padded b.length (maxSize b) ≤ cfg.lim)) := by
+  obtain ⟨hp, hall⟩ := run_spec cfg bs st st' hnd h
+  refine ⟨hp, fun b hb => ⟨(hall b hb).1, fun h1 => ?_⟩⟩
+  exact (C06u.itemsLimit_le_iff cfg.padded b cfg.lim hl).mp ((hall b hb).2 h1)
+
 /-- complete iteration: when the iterator ended (`finished`), the batches are a permutation of the
 input items — every item in exactly one batch -/
 theorem batches_partition (cfg : BCfg) (items : List Item) (bs : List (List Item)) (st' : BState)
@@ -261,10 +294,23 @@ theorem plain_step (cfg : BCfg) (hs : cfg.sort = false) (hsh : cfg.shuffle = fal
             · simp at h2
       · simp at h
 
+/-- `plain_step`, greedy maximality with the mathematical padded size: for every batch limit below `usize::MAX` the
+remainder would overflow the batch exactly -/
+theorem plain_step_exact (cfg : BCfg) (hs : cfg.sort = false) (hsh : cfg.shuffle = false) (st : BState) (b : List Item)
+    (st' : BState) (hl : max 1 cfg.limit < usizeMax) (h : stepAllowed cfg st b = some st') :
+    ∀ r, st'.buf = [r] → limOfExact cfg.padded (b.length + 1) (max (maxSize b) r.size) > cfg.lim := by
+  intro r hr
+  exact (C06u.limOf_gt_iff cfg.padded _ _ cfg.lim hl).mp ((plain_step cfg hs hsh st b st' h).2.1 r hr)
+
 /-! non-vacuity -/
 example : (runBatches { sort := false, shuffle := false, padded := true, prefetch := 1, limit := 6 }
     { rest := [⟨0, 2⟩, ⟨1, 3⟩, ⟨2, 3⟩, ⟨3, 9⟩, ⟨4, 1⟩], buf := [] }
     [[⟨0, 2⟩, ⟨1, 3⟩], [⟨2, 3⟩], [⟨3, 9⟩], [⟨4, 1⟩]]).map finished = some true := by decide
+
+/-- saturation: two items whose padded size is 2^64 are not put into one batch (limit 8) -/
+example : (runBatches { sort := false, shuffle := false, padded := true, prefetch := 1, limit := 8 }
+    { rest := [⟨0, 2 ^ 63⟩, ⟨1, 2 ^ 63⟩, ⟨2, 3⟩], buf := [] }
+    [[⟨0, 2 ^ 63⟩], [⟨1, 2 ^ 63⟩], [⟨2, 3⟩]]).map finished = some true := by decide
 
 /-! ### progress: the iteration cannot get stuck -/
 
@@ -312,7 +358,7 @@ theorem fillBuf_ne (p : Bool) (cap : Nat) : ∀ (rest buf : List Item) (c m : Na
       · exact absurd h.2 hc
 
 theorem fillBuf_ne' (cfg : BCfg) (st : BState) (hne : st.buf ++ st.rest ≠ []) :
-    (fillBuf cfg.padded (cfg.lim * cfg.pf) st.rest st.buf st.buf.length (maxSize st.buf)).1 ≠ [] := by
+    (fillBuf cfg.padded (min (cfg.lim * cfg.pf) usizeMax) st.rest st.buf st.buf.length (maxSize st.buf)).1 ≠ [] := by
   apply fillBuf_ne
   by_cases hb : st.buf = []
   · right
@@ -330,7 +376,7 @@ theorem sortBySize_ne {l : List Item} (h : l ≠ []) : sortBySize l ≠ [] := by
 theorem progress_sort (cfg : BCfg) (st : BState) (hs : cfg.sort = true) (hsh : cfg.shuffle = false)
     (hne : st.buf ++ st.rest ≠ []) : ∃ b st', stepAllowed cfg st b = some st' := by
   have hfne := fillBuf_ne' cfg st hne
-  cases hfb : fillBuf cfg.padded (cfg.lim * cfg.pf) st.rest st.buf st.buf.length (maxSize st.buf) with
+  cases hfb : fillBuf cfg.padded (min (cfg.lim * cfg.pf) usizeMax) st.rest st.buf st.buf.length (maxSize st.buf) with
   | mk buf rest' =>
   rw [hfb] at hfne
   simp only at hfne
@@ -390,7 +436,7 @@ theorem findSubseq_windows (p : Bool) (values : List Item) (k : Nat) (s e : Nat)
 theorem progress_sort_shuffle (cfg : BCfg) (st : BState) (hs : cfg.sort = true) (hsh : cfg.shuffle = true)
     (hne : st.buf ++ st.rest ≠ []) : ∃ b st', stepAllowed cfg st b = some st' := by
   have hfne := fillBuf_ne' cfg st hne
-  cases hfb : fillBuf cfg.padded (cfg.lim * cfg.pf) st.rest st.buf st.buf.length (maxSize st.buf) with
+  cases hfb : fillBuf cfg.padded (min (cfg.lim * cfg.pf) usizeMax) st.rest st.buf st.buf.length (maxSize st.buf) with
   | mk buf rest' =>
   rw [hfb] at hfne
   simp only at hfne
@@ -448,7 +494,7 @@ theorem removeItems_self (l : List Item) : removeItems l l = [] := by
 theorem progress_shuffle (cfg : BCfg) (st : BState) (hs : cfg.sort = false) (hsh : cfg.shuffle = true)
     (hnd : (st.buf ++ st.rest).Nodup) (hne : st.buf ++ st.rest ≠ []) : ∃ b st', stepAllowed cfg st b = some st' := by
   have hfne := fillBuf_ne' cfg st hne
-  cases hfb : fillBuf cfg.padded (cfg.lim * cfg.pf) st.rest st.buf st.buf.length (maxSize st.buf) with
+  cases hfb : fillBuf cfg.padded (min (cfg.lim * cfg.pf) usizeMax) st.rest st.buf st.buf.length (maxSize st.buf) with
   | mk buf rest' =>
   rw [hfb] at hfne
   simp only at hfne
